@@ -74,6 +74,37 @@ def main():
         except Exception as ex:  # noqa: BLE001
             case["status"] = type(ex).__name__
         cases.append(case)
+    # extreme but valid scalar arguments (the declared 32-bit widths must not truncate a valid input): a step a billion
+    # times smaller than a cell with an explicit small budget and an end point a few steps from the source; a huge budget
+    for it in range(max(3, a.n // 8)):
+        rs = np.random.RandomState((a.seed * 100003 + 104729 * (it + 1)) % (2 ** 32))
+        nd = 2 + it % 2
+        cells = tuple(int(rs.randint(2, 5)) for _ in range(nd))
+        d = tuple(float(rs.choice([1.0, 50.0, 1000.0])) for _ in range(nd))
+        # homogeneous model, source on an interior node, end point on a grid line through it: the interpolated gradient on
+        # that edge is exactly along the line, so the ray reaches the source in a handful of steps whatever their size
+        v = np.full(cells, 1.0 + rs.rand())
+        src = np.array([d[k] * float(rs.randint(1, cells[k])) for k in range(nd)])
+        tiny = float(min(d) * rs.choice([1e-9, 1e-11, 3e-10]))
+        dirn = np.zeros(nd)
+        dirn[int(rs.randint(nd))] = float(rs.choice([-1.0, 1.0]))
+        p = src + dirn * tiny * float(rs.uniform(2.2, 6.5))
+        desc = {"nd": nd, "cells": list(cells), "d": list(d), "o": [0.0] * nd, "kind": "extreme-scalars", "src": src.tolist(), "scls": "interior",
+                "v_hex": hx(v), "point": p.tolist(), "stepsize": tiny}
+        case = {"desc": desc, "status": "ok", "values": {}}
+        try:
+            tt = eik(nd)(v, d).solve(src, return_gradient=True)
+            for nm, kw in (("tiny_step", {"stepsize": tiny, "max_step": 40}), ("huge_budget", {"max_step": 2 ** 31 - 1 if it % 2 else 2 ** 20})):
+                try:
+                    if nm == "huge_budget" and kw["max_step"] > 2 ** 21:
+                        continue    # (a 2^31-row buffer cannot be allocated in either build)
+                    r = tt.raytrace(p if nm == "tiny_step" else src + 0.3 * np.array(d), **kw)
+                    case["values"][nm] = hx(r)
+                except RuntimeError:
+                    case["values"][nm] = []
+        except Exception as ex:  # noqa: BLE001
+            case["status"] = type(ex).__name__
+        cases.append(case)
     # traveltime grids built directly, with ONE sample along an axis: `_vinterp2d/_vinterp3d` are the two kernels that ask
     # for bounds checking in their own decorator (`boundscheck=True`); on such an axis their far-face branch subscripts
     # `x[-2]`, which is an IndexError in the Python source - and must be one in the compiled build (same exception type)
